@@ -13,14 +13,15 @@ def BuiltinOk (r : BuiltinRun) : Prop :=
   ∀ param idxs v, r.result param idxs = some v → ∀ j, 0 < v.count j → 0 < param.count j ∨ j ∈ idxs
 
 theorem live_builtin_result {s s' : State} {r : BuiltinRun} (hr : BuiltinOk r) {param v : Val} {idxs : List Nat}
-    (hres : r.result param idxs = some v) (hp : Live s' param) (hn : NewSlots s s' r.allocs idxs) : Live s' v := by
+    {ds : List Data}
+    (hres : r.result param idxs = some v) (hp : Live s' param) (hn : NewSlots s s' ds idxs) : Live s' v := by
   intro j hj
   cases hr param idxs v hres j hj with
   | inl hpj => exact hp j hpj
   | inr hmem =>
     obtain ⟨k, hk, hkj⟩ := List.getElem_of_mem hmem
-    have hk2 : k < r.allocs.length := by rw [← hn.1]; exact hk
-    have ⟨a, b, _, _⟩ := hn.2 k j r.allocs[k] (by simp [hk, hkj]) (by simp [hk2])
+    have hk2 : k < ds.length := by rw [← hn.1]; exact hk
+    have ⟨a, b, _, _⟩ := hn.2 k j ds[k] (by simp [hk, hkj]) (by simp [hk2])
     exact ⟨a, b⟩
 
 theorem good_handleCall {s : State} (h : Inv s) (pid : Nat) (fnExists : Nat → Bool)
@@ -62,9 +63,12 @@ theorem good_handleCall {s : State} (h : Inv s) (pid : Nat) (fnExists : Nat → 
         split
         · exact sp1.1.trans sp2.1
         · rename_i r hr
-          have ⟨ga, ra, na⟩ := allocMany_spec r.allocs s2 sp2.1.inv
           have g12 := sp1.1.trans sp2.1
-          cases ham : allocMany s2 r.allocs with
+          split
+          · exact g12
+          rename_i ds hds
+          have ⟨ga, ra, na⟩ := allocMany_spec ds s2 sp2.1.inv
+          cases ham : allocMany s2 ds with
           | mk oi s3 =>
             rw [ham] at ga ra na
             have g3 : GoodT s2 s3 := ⟨ga, ra.transit⟩
@@ -146,7 +150,9 @@ theorem stackOf_rawPop (s : State) (pid : Nat) : stackOf (rawPop s pid).2 pid = 
   | some p =>
     cases hst : p.stack with
     | nil => simp [stackOf, hp, hst]
-    | cons v rest => simp [stackOf, hp, hst, getProc, setProc, aget_aset_same]
+    | cons v rest =>
+      have hp' : aget s.procs pid = some p := hp
+      simp [stackOf, hp', hst, getProc, setProc, aget_aset_same]
 
 theorem rawPop_specT {s : State} (h : Inv s) (pid : Nat) :
     Good s (rawPop s pid).2 ∧
@@ -163,6 +169,22 @@ theorem goodT_releaseTransit_head {s : State} (h : Inv s) : Good s (releaseTrans
   refine ⟨good_releaseTransit h 0, ?_⟩
   rw [transit_releaseTransit]; cases s.transit <;> simp
 
+theorem getProc_releaseTransit (s : State) (k pid : Nat) : (releaseTransit s k).getProc pid = s.getProc pid := by
+  unfold releaseTransit; split
+  · rw [getProc_of_sameRoots (sameRoots_release _ _)]; rfl
+  · rfl
+
+theorem rawPop_some_getProc {s : State} {pid : Nat} {v : Val} (h : (rawPop s pid).1 = some v) :
+    ∃ p, (rawPop s pid).2.getProc pid = some p := by
+  cases hp : s.getProc pid with
+  | none => simp [rawPop, hp] at h
+  | some p =>
+    cases hst : p.stack with
+    | nil => simp [rawPop, hp, hst] at h
+    | cons x xs =>
+      simp only [rawPop, hp, hst]
+      exact ⟨{ p with stack := xs }, by simp [getProc, setProc, aget_aset_same]⟩
+
 theorem good_handleSpawn {s : State} (h : Inv s) (pid : Nat) (hdepth : (stackOf s pid).length ≠ 1) :
     GoodT s (handleSpawn s pid).1 := by
   unfold handleSpawn
@@ -175,7 +197,9 @@ theorem good_handleSpawn {s : State} (h : Inv s) (pid : Nat) (hdepth : (stackOf 
     | mk o1 s1 =>
       rw [hp1] at r1 e1 st1
       cases o1 with
-      | none => simp only; rw [r1.2.2 rfl]; exact GoodT.refl h
+      | none =>
+        have := r1.2.2 rfl
+        simp only at this ⊢; subst this; exact GoodT.refl h
       | some fv =>
         simp only
         have ⟨t1, _⟩ := r1.2.1 fv rfl
@@ -221,7 +245,9 @@ theorem good_handleSend {s : State} (h : Inv s) (pid : Nat) (hdepth : (stackOf s
     | mk o1 s1 =>
       rw [hp1] at r1 e1 st1
       cases o1 with
-      | none => simp only; rw [r1.2.2 rfl]; exact GoodT.refl h
+      | none =>
+        have := r1.2.2 rfl
+        simp only at this ⊢; subst this; exact GoodT.refl h
       | some tv =>
         simp only
         have ⟨t1, _⟩ := r1.2.1 tv rfl
@@ -254,43 +280,12 @@ theorem good_handleSend {s : State} (h : Inv s) (pid : Nat) (hdepth : (stackOf s
               simp only
               have g4 := good_rawPushTransit g3.inv pid 0
               have t4 : (rawPushTransit (releaseTransit s2 0) pid 0).transit = s.transit := by
+                obtain ⟨p, hp⟩ := rawPop_some_getProc (s := s1) (pid := pid) (v := message) (by rw [hp2])
+                rw [hp2] at hp
+                have hp' : (releaseTransit s2 0).getProc pid = some p := by
+                  rw [getProc_releaseTransit]; exact hp
                 unfold rawPushTransit
-                split
-                · simp [setProc, t3']
-                · rename_i hne
-                  exfalso
-                  -- the process exists (we popped from its stack) and transit is non-empty
-                  cases hg : (releaseTransit s2 0).getProc pid with
-                  | none =>
-                    have : stackOf s pid = [] := by
-                      have q1 : (releaseTransit s2 0).getProc pid = s2.getProc pid := by
-                        unfold releaseTransit; split
-                        · rw [getProc_of_sameRoots (sameRoots_release _ _)]; rfl
-                        · rfl
-                      rw [q1] at hg
-                      have : stackOf s2 pid = [] := by simp [stackOf, hg]
-                      have q2 := stackOf_rawPop s1 pid
-                      rw [hp2] at q2
-                      -- s2 has no such process, so s1's rawPop failed; contradiction with e2
-                      have : (rawPop s1 pid).1 = none := by
-                        unfold rawPop
-                        cases hg1 : s1.getProc pid with
-                        | none => rfl
-                        | some p1 =>
-                          exfalso
-                          have : s2.getProc pid ≠ none := by
-                            have := hp2
-                            unfold rawPop at this
-                            rw [hg1] at this
-                            cases hst : p1.stack with
-                            | nil => simp [hst] at this; rw [← this.2, hg1]; simp
-                            | cons x xs =>
-                              simp [hst] at this
-                              rw [← this.2]; simp [getProc, setProc, aget_aset_same]
-                          exact this hg
-                      rw [hp2] at this; cases this
-                    rw [this] at e1; cases e1
-                  | some p => exact hne tv p (by rw [t3']; rfl) hg
+                simp [t3', hp', setProc]
               exact ⟨g123.trans (g4.trans (good_bump g4.inv pid)), by rw [transit_bump, t4]⟩
             | _ =>
               simp only
@@ -298,7 +293,7 @@ theorem good_handleSend {s : State} (h : Inv s) (pid : Nat) (hdepth : (stackOf s
               intro v hv i
               rw [t3'] at hv; simp at hv; subst hv
               cases htv with
-              | inl hp => obtain ⟨a, b, e⟩ := hp; cases e
+              | inl hp => cases hp with | intro a hp => cases hp with | intro b e => cases e
               | inr hf => exact hf i
 
 end QM.Heap
